@@ -21,9 +21,9 @@ checks = {
  "C14": ("model_checking", "stateless exploration of all interleavings up to a preemption bound under a controlled scheduler + porcupine linearizability vs the reference filesystem; free-running -race complement",
          "Every schedule with <=2 (quick) / <=3 (thorough) preemptions of 2-3 client programs on colliding names is linearizable w.r.t. the reference filesystem on MemFs (statement-level preemption) and DirFs (system-call-level), with distinct live descriptors.",
          "preemption points only where instrumented; system calls atomic; race pass not exhaustive over schedules", "2 C14"),
- "C15": ("exploration", "bounded-exhaustive input enumeration (every byte value in every lane, corner values, all buffer lengths 0..12, two fills) on the real Put/Get",
-         "Little-endian layout, frame, Get-after-Put, Get's independence of later bytes and refusal-without-partial-write hold on the whole lane/corner domain for both widths.",
-         "values outside the lane/corner domain are covered by the lane-wise argument only", "2 C15"),
+ "C15": ("model_checking", "bounded-exhaustive input enumeration (every byte value in every lane, corner values, all buffer lengths 0..12, fills, spare capacity behind the buffer) on the real Put/Get; stateless exploration of all interleavings up to a preemption bound of 2-3 concurrent callers (statement-level preemption in machine/prims.go) + free-running -race complement",
+         "Little-endian layout, frame, Get-after-Put, Get's independence of later bytes, refusal-without-partial-write and nothing read or written behind len(buf) hold on the whole lane/corner domain for both widths; concurrent callers on their own buffers never disturb each other in any explored schedule.",
+         "values outside the lane/corner domain are covered by the lane-wise argument only; preemption points at statement boundaries of prims.go", "2 C15"),
  "C16": ("model_checking", "stateless exploration of all interleavings (deviation-bounded) of WaitTimeout's caller, helper goroutine, timer event and signaller under a controlled scheduler with a logical clock; bounded-exhaustive input enumeration for the pure primitives",
          "Lock held and exclusive on return, no unlock of an unlocked mutex, return guaranteed on the timer-only and signal-only paths over every explored schedule; canonical decimal rendering on all n<10^5 and all boundaries; MapClear on all small maps; Assume/Assert on both booleans.",
          "wall-clock bounds only in logical form; primitive module instrumented by overlay", "2 C16"),
